@@ -10,6 +10,7 @@ import GraphiqModel.Proofs.StateToGraphAdjugate
 import GraphiqModel.Proofs.StateToGraphDensity
 import GraphiqModel.Proofs.StateToGraphNegativity
 import GraphiqModel.Proofs.StateToGraphHilbert
+import GraphiqModel.Proofs.StateToGraphGaugeIndep
 import GraphiqModel.Proofs.GraphStateGroup
 namespace Graphiq.C08
 open Graphiq Graphiq.PRow Graphiq.Tab Graphiq.STab
@@ -305,6 +306,57 @@ theorem graph_round_trip (n : Nat) (hn : 0 < n) (adj : Adj) (hsym : ∀ i j, i <
     (∃ g, S2G.stateToGraph (graphSTab n adj) = .ok (g, []) ∧ ∀ i j, i < n → j < n → g.f i j = adj i j) ∧
     (∃ g, S2G.stabilizerToGraph (graphSTab n adj) = .ok g ∧ ∀ i j, i < n → j < n → g.f i j = adj i j) :=
   ⟨stateToGraph_graph n hn adj hsym hirr, stabilizerToGraph_graph n hn adj hsym hirr⟩
+
+/-- **`state_to_graph` depends only on the state, not on the generating set** (every n ≥ 1): two tableaux of real, commuting, independent
+    generators that generate the same signed group are converted to the SAME graph with the SAME gate list.  (The Hadamard positions are
+    the columns without pivot of the echelon form of the X part, and pivot columns are determined by the row space `{g.x : g ∈ group}`;
+    `final_z` is the unique `C` with `z = x·C` on the transformed group; the sign-fixing `Z` gates are read off the canonical form, which is
+    unique for the group.)  `stabilizer_to_graph_complete` below is the instance "one of the two is the graph gauge". -/
+theorem state_to_graph_depends_only_on_state (t t' : STab) (hn : 0 < t.n) (hstate : IsStabilizerState t)
+    (hstate' : IsStabilizerState t') (hsame : t.n = t'.n ∧ ∀ p, t.Spn p ↔ t'.Spn p) :
+    S2G.stateToGraph t = S2G.stateToGraph t' :=
+  stateToGraph_gauge_indep t t' hn hstate.1 hstate'.1 hstate.2 hstate'.2
+    ⟨hsame.1, fun p => (hsame.2 p).1, fun p => (hsame.2 p).2⟩
+
+/-- non-vacuity of `state_to_graph_depends_only_on_state`: `⟨XX, −ZZ⟩` (`bellMinus`) and `⟨YY, −ZZ⟩` are two different generating sets
+    of one state (`YY = XX · (−ZZ)`) -/
+def bellMinusYY : STab :=
+  { n := 2, row := fun i => if i = 0 then ⟨fun j => decide (j < 2), fun j => decide (j < 2), false, false⟩
+                            else ⟨fun _ => false, fun j => decide (j < 2), true, false⟩ }
+example : 0 < bellMinus.n ∧ IsStabilizerState bellMinus ∧ IsStabilizerState bellMinusYY ∧
+    (bellMinus.n = bellMinusYY.n ∧ ∀ p, bellMinus.Spn p ↔ bellMinusYY.Spn p) ∧
+    ¬ (∀ i, i < 2 → PRow.EqOn 2 (bellMinus.row i) (bellMinusYY.row i)) := by
+  have hs : SpanEq bellMinus bellMinusYY := by
+    apply spanEq_of_gens bellMinus bellMinusYY rfl
+    · intro i hi
+      have : i = 0 ∨ i = 1 := by have : i < 2 := hi; omega
+      rcases this with rfl | rfl
+      · exact InSpan.eqv _ _ (InSpan.mul _ _ (spn_gen bellMinus 0 (by decide)) (spn_gen bellMinus 1 (by decide)))
+          (beqOn_eqOn _ _ _ (by decide))
+      · exact InSpan.eqv _ _ (spn_gen bellMinus 1 (by decide)) (beqOn_eqOn _ _ _ (by decide))
+    · intro i hi
+      have : i = 0 ∨ i = 1 := by have : i < 2 := hi; omega
+      rcases this with rfl | rfl
+      · exact InSpan.eqv _ _ (InSpan.mul _ _ (spn_gen bellMinusYY 0 (by decide)) (spn_gen bellMinusYY 1 (by decide)))
+          (beqOn_eqOn _ _ _ (by decide))
+      · exact InSpan.eqv _ _ (spn_gen bellMinusYY 1 (by decide)) (beqOn_eqOn _ _ _ (by decide))
+  have ind : ∀ t : STab, t.n = 2 → (t.row 0).x 0 = true → (t.row 1).x 0 = false → (t.row 1).z 0 = true → S2G.Indep (S2G.XZ.ofSTab t) := by
+    intro t hn2 h00 h10 h1z c hc i hi
+    have hn' : (S2G.XZ.ofSTab t).n = 2 := hn2
+    rw [hn'] at hc hi
+    have a := (hc 0 (by decide)).1
+    have b := (hc 0 (by decide)).2
+    simp only [parityTo, S2G.XZ.ofSTab, h00, h10, h1z, Bool.and_true, Bool.and_false, Bool.xor_false, Bool.false_xor] at a b
+    have h : i = 0 ∨ i = 1 := by omega
+    rcases h with rfl | rfl
+    · exact a
+    · rw [a] at b; simpa using b
+  refine ⟨by decide, ⟨S2G.good_of_check _ (by decide), ind _ rfl (by decide) (by decide) (by decide)⟩,
+    ⟨S2G.good_of_check _ (by decide), ind _ rfl (by decide) (by decide) (by decide)⟩, ⟨rfl, fun p => ⟨hs.sub p, hs.sup p⟩⟩, ?_⟩
+  intro h
+  have := ((h 0 (by decide)).1 0 (by decide)).2
+  revert this
+  decide
 
 /-- **stabilizer → graph recovers `G` from `|G⟩` presented in ANY generating set** (every n ≥ 1, every simple graph, every real
     commuting tableau `t` that generates the signed group of `|G⟩`): the modelled `stabilizer_to_graph(validate=True)` returns `G`
